@@ -21,6 +21,7 @@ origin={
  'V8':'added after seed C01-a','V9':'added after seed C01-b','V10':'added after seed C01-r3a','W7':'added after seed C01-r3b','N8':'added after seed C02-r3b',
  'F4':'added after seed C04-r3a','S6':'added after seed C07-r3b','S2':'planned; the read-inside-the-loop clause was added after seed C07-r3a','O9':'added after seed C09-r3a','O10':'added after seed C09-r3b',
  'T6':'added after seed C10-r3b','Q5':'added after seed C15-r3b','R4':'added after seed C20-r3a','R5':'added after seed C20-r3b',
+ 'W8':'added after seed C08-r4b','F5':'added after seed C05-r4a (also detects C04-r2a, the same idea)','M3':'added after seed C06-r4a','L7':'added after seed C16-r4b','H7':'added after seed C11-r4a','R6':'added after seed C20-r4b',
  'H3':'planned; key-provenance clause added after seed C12-r3a','B2':'planned; made transitive after seed C19-r3b','P1':'planned; the double-release clause was added after seed C06-r3a',
 }
 out=subprocess.check_output([V+'/bin/verifsa','rules'],text=True)
